@@ -361,8 +361,52 @@ fn build_request(sh: &Shared, r: &ReqTok) -> Request {
     req
 }
 
-/// outputs of one history on one fresh service instance: per token (text, live ext values, live conn data)
-async fn run_history(toks: &[Tok]) -> Vec<(String, isize, isize)> {
+/// tokens that act on stashed handles only (same in both modes)
+fn slot_token(sh: &Shared, tok: &Tok) -> Option<String> {
+    Some(match tok {
+        Tok::D(s) => {
+            let h = sh.stash.borrow_mut().remove(s);
+            match h {
+                Some(h) => {
+                    drop(h);
+                    "ok".to_owned()
+                }
+                None => "-".to_owned(),
+            }
+        }
+        Tok::V(s) => match sh.stash.borrow().get(s) {
+            Some(h) => dump(h),
+            None => "-".to_owned(),
+        },
+        Tok::E(s, t, v) => match sh.stash.borrow().get(s) {
+            Some(h) => {
+                insert_ext(h, &sh.ext_alive, *t, *v);
+                "ok".to_owned()
+            }
+            None => "-".to_owned(),
+        },
+        Tok::C(s, s2) => {
+            let h = sh.stash.borrow().get(s).cloned();
+            match h {
+                Some(h) => {
+                    let old = sh.stash.borrow_mut().insert(*s2, h);
+                    drop(old);
+                    "ok".to_owned()
+                }
+                None => "-".to_owned(),
+            }
+        }
+        Tok::M(_) => "m".to_owned(),
+        Tok::Bad => "bad-op".to_owned(),
+        _ => return None,
+    })
+}
+
+type Outs = Vec<(String, isize, isize)>;
+
+/// mode `svc`: outputs of one history on one fresh `test::init_service` instance:
+/// per token (text, live ext values, live conn data)
+async fn run_history_svc(toks: &[Tok]) -> Outs {
     let sh = Rc::new(Shared::default());
     let mut svc = Some(test::init_service(build_app(&sh)).await);
     let mut outs = Vec::with_capacity(toks.len());
@@ -388,45 +432,12 @@ async fn run_history(toks: &[Tok]) -> Vec<(String, isize, isize)> {
                     d
                 }
             },
-            Tok::D(s) => {
-                let h = sh.stash.borrow_mut().remove(s);
-                match h {
-                    Some(h) => {
-                        drop(h);
-                        "ok".to_owned()
-                    }
-                    None => "-".to_owned(),
-                }
-            }
-            Tok::V(s) => match sh.stash.borrow().get(s) {
-                Some(h) => dump(h),
-                None => "-".to_owned(),
-            },
-            Tok::E(s, t, v) => match sh.stash.borrow().get(s) {
-                Some(h) => {
-                    insert_ext(h, &sh.ext_alive, *t, *v);
-                    "ok".to_owned()
-                }
-                None => "-".to_owned(),
-            },
-            Tok::C(s, s2) => {
-                let h = sh.stash.borrow().get(s).cloned();
-                match h {
-                    Some(h) => {
-                        let old = sh.stash.borrow_mut().insert(*s2, h);
-                        drop(old);
-                        "ok".to_owned()
-                    }
-                    None => "-".to_owned(),
-                }
-            }
             Tok::X => {
                 svc = None;
                 "ok".to_owned()
             }
             Tok::Q(_) => "ok".to_owned(),
-            Tok::M(_) => "m".to_owned(),
-            Tok::Bad => "bad-op".to_owned(),
+            other => slot_token(&sh, other).unwrap(),
         };
         outs.push((text, sh.ext_alive.get(), sh.conn_alive.get()));
     }
@@ -434,6 +445,114 @@ async fn run_history(toks: &[Tok]) -> Vec<(String, isize, isize)> {
     sh.stash.borrow_mut().clear();
     drop(svc);
     outs
+}
+
+struct Conn {
+    client: tokio::io::DuplexStream,
+    task: actix_rt::task::JoinHandle<()>,
+}
+
+async fn close_conn(c: Conn) {
+    drop(c.client);
+    let _ = c.task.await;
+}
+
+/// mode `h1`: the same application behind `HttpService::h1` with an `on_connect_ext` callback;
+/// requests are HTTP/1.1 bytes written to in-memory connections (one dispatcher per connection,
+/// all sharing the one `AppInitService` and hence the one request pool)
+async fn run_history_h1(toks: &[Tok]) -> Outs {
+    use actix_http::HttpService;
+    use tokio::io::{AsyncReadExt, AsyncWriteExt};
+    let sh = Rc::new(Shared::default());
+    let cur_conn = Rc::new(Cell::new(0u32));
+    let (cc, ca) = (cur_conn.clone(), sh.conn_alive.clone());
+    let factory = HttpService::build()
+        .on_connect_ext(move |_io: &tokio::io::DuplexStream, ext: &mut actix_http::Extensions| {
+            ext.insert(ConnProbe(cc.get(), Alive::new(&ca)));
+        })
+        .h1(actix_service::map_config(build_app(&sh), |_| actix_web::dev::AppConfig::default()));
+    let mut svc = Some(actix_service::ServiceFactory::new_service(&factory, ()).await.expect("h1 service"));
+    let mut conns: BTreeMap<u32, Conn> = BTreeMap::new();
+    let mut outs = Vec::with_capacity(toks.len());
+    for tok in toks {
+        let text = match tok {
+            Tok::R(r) => match (&svc, r.conn) {
+                (Some(s), Some(c)) if !r.acts.contains(&Act::Cancel) && r.reqdata.is_empty() => {
+                    if !conns.contains_key(&c) {
+                        let (client, server) = tokio::io::duplex(1 << 16);
+                        cur_conn.set(c);
+                        let peer = r.peer.map(|p| std::net::SocketAddr::from(([127, 0, 0, 1], p as u16)));
+                        let fut = s.call((server, peer));
+                        let task = actix_rt::spawn(async move {
+                            let _ = fut.await;
+                        });
+                        conns.insert(c, Conn { client, task });
+                    }
+                    *sh.acts.borrow_mut() = r.acts.clone();
+                    sh.dumps.borrow_mut().clear();
+                    let mut raw = format!("{} {} HTTP/{}\r\n", r.method, r.uri, if r.ver == "10" { "1.0" } else { "1.1" });
+                    for (k, v) in &r.hdrs {
+                        raw.push_str(&format!("{k}: {v}\r\n"));
+                    }
+                    raw.push_str("\r\n");
+                    let conn = conns.get_mut(&c).unwrap();
+                    let mut ok = conn.client.write_all(raw.as_bytes()).await.is_ok();
+                    // read one complete response head (bodies are empty)
+                    let mut buf = Vec::new();
+                    let mut chunk = [0u8; 1024];
+                    while ok && !buf.windows(4).any(|w| w == b"\r\n\r\n") {
+                        match conn.client.read(&mut chunk).await {
+                            Ok(0) | Err(_) => ok = false,
+                            Ok(n) => buf.extend_from_slice(&chunk[..n]),
+                        }
+                    }
+                    sh.acts.borrow_mut().clear();
+                    let d = sh.dumps.borrow().join("|");
+                    if ok {
+                        d
+                    } else {
+                        format!("{d}|connection-lost")
+                    }
+                }
+                (None, _) => "-".to_owned(),
+                _ => "unsupported-in-h1".to_owned(),
+            },
+            Tok::X => {
+                // the AppInitService lives as long as a dispatcher holds the flow: close all
+                for (_, c) in std::mem::take(&mut conns) {
+                    close_conn(c).await;
+                }
+                svc = None;
+                "ok".to_owned()
+            }
+            Tok::Q(c) => {
+                if let Some(c) = conns.remove(c) {
+                    close_conn(c).await;
+                }
+                "ok".to_owned()
+            }
+            other => slot_token(&sh, other).unwrap(),
+        };
+        outs.push((text, sh.ext_alive.get(), sh.conn_alive.get()));
+    }
+    sh.stash.borrow_mut().clear();
+    for (_, c) in std::mem::take(&mut conns) {
+        close_conn(c).await;
+    }
+    drop(svc);
+    outs
+}
+
+fn is_h1(toks: &[Tok]) -> bool {
+    matches!(toks.first(), Some(Tok::M(m)) if m == "h1")
+}
+
+async fn run_history(toks: &[Tok]) -> Outs {
+    if is_h1(toks) {
+        run_history_h1(toks).await
+    } else {
+        run_history_svc(toks).await
+    }
 }
 
 // ---------------------------------------------------------------------------------------------
@@ -448,6 +567,10 @@ struct Book {
     /// per request: projected history and, per projected token, the index of the token of the full
     /// history whose output it must reproduce
     proj: Vec<Vec<(Tok, Option<usize>)>>,
+    /// per request: connection it arrived on (h1 mode)
+    conn_of: Vec<Option<u32>>,
+    /// connections whose dispatcher is alive (h1 mode)
+    open: BTreeSet<u32>,
     /// estimate of the pool length (for tags only)
     pool: usize,
     alive_svc: bool,
@@ -480,6 +603,15 @@ impl Book {
             }
         }
     }
+    fn expected_conn_alive(&self) -> isize {
+        let mut cs = self.open.clone();
+        for k in 0..self.conn_of.len() {
+            if let (Some(c), true) = (self.conn_of[k], self.handles(k) > 0) {
+                cs.insert(c);
+            }
+        }
+        cs.len() as isize
+    }
     fn expected_alive(&self) -> isize {
         (0..self.ext_types.len()).filter(|k| self.handles(*k) > 0).map(|k| self.ext_types[k].len() as isize).sum()
     }
@@ -507,6 +639,7 @@ fn expected_head(r: &ReqTok) -> String {
 fn run(line: &str) -> CaseResult {
     let toks: Vec<Tok> = line.split_ascii_whitespace().map(parse_tok).collect();
     let toks2 = toks.clone();
+    let h1 = is_h1(&toks);
     let (outs, fails, book) = block_on_system(async move {
         let toks = toks2;
         let outs = run_history(&toks).await;
@@ -514,14 +647,25 @@ fn run(line: &str) -> CaseResult {
         let mut b = Book { alive_svc: true, ..Default::default() };
         for (j, tok) in toks.iter().enumerate() {
             match tok {
-                Tok::R(r) if b.alive_svc => {
+                Tok::R(r)
+                    if b.alive_svc
+                        && (!h1 || (r.conn.is_some() && !r.acts.contains(&Act::Cancel) && r.reqdata.is_empty())) =>
+                {
                     let k = b.ext_types.len();
+                    b.conn_of.push(if h1 { r.conn } else { None });
+                    if let (true, Some(c)) = (h1, r.conn) {
+                        b.open.insert(c);
+                    }
                     if b.pool > 0 {
                         b.pool -= 1;
                         b.reuse = true;
                     }
                     b.ext_types.push(r.reqdata.iter().map(|e| e.0).filter(|t| (1..=3).contains(t)).collect());
-                    b.proj.push(vec![(tok.clone(), Some(j))]);
+                    b.proj.push(if h1 {
+                        vec![(Tok::M("h1".into()), None), (tok.clone(), Some(j))]
+                    } else {
+                        vec![(tok.clone(), Some(j))]
+                    });
                     for a in &r.acts {
                         match a {
                             Act::Ext(t, _) if (1..=3).contains(t) => {
@@ -540,7 +684,7 @@ fn run(line: &str) -> CaseResult {
                             break;
                         }
                         let c = field(d, "c=");
-                        if c != opt(r.conn) {
+                        if c != opt(if h1 { r.conn } else { None }) {
                             fails.push(("conn-data-mismatch".into(), format!("token {j}: conn_data {c} want {}", opt(r.conn))));
                             break;
                         }
@@ -575,21 +719,32 @@ fn run(line: &str) -> CaseResult {
                         b.bind(*s2, k, None);
                     }
                 }
+                Tok::Q(c) => {
+                    b.open.remove(c);
+                }
                 Tok::X => {
                     b.alive_svc = false;
                     b.pool = 0;
+                    b.open.clear();
                     for k in 0..b.proj.len() {
                         if b.handles(k) > 0 {
                             b.proj[k].push((Tok::X, Some(j)));
                         }
                     }
                 }
-                Tok::Q(_) | Tok::M(_) | Tok::Bad => {}
+                Tok::M(_) | Tok::Bad => {}
             }
             let live = (0..b.ext_types.len()).filter(|k| b.handles(*k) > 0).count();
             b.max_live = b.max_live.max(live);
             // release oracle
             let want = b.expected_alive();
+            let cwant = b.expected_conn_alive();
+            if h1 && outs[j].2 != cwant && fails.iter().all(|f| f.0 != "conn-data-release") {
+                fails.push((
+                    "conn-data-release".into(),
+                    format!("after token {j}: {} connection-data containers alive, {} belong to open connections or requests with a live handle", outs[j].2, cwant),
+                ));
+            }
             if outs[j].1 != want && fails.iter().all(|f| f.0 != "ext-release") {
                 fails.push((
                     "ext-release".into(),
@@ -635,6 +790,9 @@ fn run(line: &str) -> CaseResult {
     }
     if toks.iter().any(|t| matches!(t, Tok::R(r) if r.acts.contains(&Act::Cancel))) {
         tags.push("cancelled".to_owned());
+    }
+    if h1 {
+        tags.push("h1-conn-data".to_owned());
     }
     if book.max_live > 128 {
         tags.push("live>128".to_owned());
@@ -774,6 +932,60 @@ fn gen_overflow(rng: &mut Rng) -> String {
     toks.join(" ")
 }
 
+/// history over HTTP/1.1 connections with connection data (connection ids are never reused)
+fn gen_h1(rng: &mut Rng, n: usize, slots: u32) -> String {
+    let mut toks = vec!["M=h1".to_owned()];
+    let mut live: Vec<usize> = Vec::new();
+    let mut next = 1usize;
+    for _ in 0..n {
+        let s = rng.range(1, slots as usize);
+        toks.push(match rng.below(20) {
+            0..=9 => {
+                let c = if live.is_empty() || (live.len() < 3 && rng.chance(1, 3)) {
+                    live.push(next);
+                    next += 1;
+                    next - 1
+                } else {
+                    *rng.pick(&live)
+                };
+                let r = gen_req(rng, slots);
+                // R:<conn>:<method>:<uri>:<ver>:<peer>:<hdrs>:<reqdata>:<acts>
+                let p: Vec<&str> = r.split(':').collect();
+                let acts: Vec<&str> = p[8].split(',').filter(|a| *a != "x" && *a != "-").collect();
+                let peer = if c % 2 == 1 { (2000 + c).to_string() } else { "-".to_owned() };
+                format!(
+                    "R:{c}:{}:{}:11:{peer}:{}:-:{}",
+                    p[2],
+                    p[3],
+                    p[6],
+                    if acts.is_empty() { "-".to_owned() } else { acts.join(",") }
+                )
+            }
+            10..=11 => {
+                if live.is_empty() {
+                    format!("Q:{next}")
+                } else {
+                    let i = rng.below(live.len());
+                    format!("Q:{}", live.remove(i))
+                }
+            }
+            12..=13 => format!("D:{s}"),
+            14..=15 => format!("V:{s}"),
+            16 => format!("E:{s}:{}={}", rng.range(1, 3), rng.below(10)),
+            17 => format!("C:{s}:{}", rng.range(1, slots as usize)),
+            18 => format!("D:{s}"),
+            _ => {
+                if rng.chance(1, 6) {
+                    "X".to_owned()
+                } else {
+                    format!("V:{s}")
+                }
+            }
+        });
+    }
+    toks.join(" ")
+}
+
 fn gen(ctx: &Ctx) -> Vec<String> {
     let mut rng = Rng::new(ctx.seed);
     let mut cases = Vec::new();
@@ -784,6 +996,11 @@ fn gen(ctx: &Ctx) -> Vec<String> {
     }
     for _ in 0..ctx.budget(6) {
         cases.push(gen_overflow(&mut rng));
+    }
+    for _ in 0..ctx.budget(200) {
+        let n = if rng.chance(1, 10) { rng.range(20, 40) } else { rng.range(2, 14) };
+        let slots = *rng.pick(&[1u32, 2, 3, 6]);
+        cases.push(gen_h1(&mut rng, n, slots));
     }
     cases
 }
